@@ -80,12 +80,44 @@ def check(run):
             sc.exp_results.append(None)
             sc.exp_writes = []
             scs.append(sc); meta.append(("config", cc.History(S, cfg), 0, 0))
+    # (4) configuration values BEYOND what their field on the wire can carry: Feig::new refuses them with an error (no client, no
+    #     call, no panic); a terminal id of nine or more digits is an error of configure(), every later call still returns
+    for cfg in ({"pw": 10 ** 6}, {"pw": 2 ** 64 - 1}, {"cur": 10 ** 4}, {"cur": 2 ** 63}, {"amount": 10 ** 12}, {"amount": 2 ** 64 - 1},
+                {"pw": 10 ** 6, "cur": 978, "amount": 1}):
+        sc = cc.Scenario(S, cfg)
+        sc.ops.append("read_card")
+        sc.exp_results = []
+        sc.exp_writes = []
+        scs.append(sc); meta.append(("config-refused", cc.History(S, cfg), 0, 0))
+    for tid in ("123456789", "100000000", "99999999999999999", "18446744073709551615"):
+        sc = cc.Scenario(S, {"tid": tid})
+        sc.handshake()
+        sc.exchange(S.sysinfo_req(), [S.sysinfo(sc.cfg["serial"], "52523535")])      # Feig::new's configure(): the id differs and is too long
+        sc.ops.append("configure")
+        sc.exchange(S.sysinfo_req(), [S.sysinfo(sc.cfg["serial"], "52523535")])
+        sc.ops.append("read_card")
+        sc.exchange(S.read_card_req(sc.cfg["rct"]), [S.status_info({0x27: 0, 0x06: {"uuid": "04a1b2c3"}})])
+        sc.exp_results = ["Err:Msg:The_terminal_id_has_more_than_eight_digits", "Ok:Member:04A1B2C3"]
+        sc.exp_writes = []
+        scs.append(sc); meta.append(("config-tid", cc.History(S, {"tid": tid}), 0, 0))
     cases, mo, io = run_scenarios(run, scs, "c10")
     diffs = []
     for (kind, h, a, b), sc, c, m, i in zip(meta, scs, cases, mo, io):
         if m != i:
             diffs.append((c[:3000], m[:1500], i[:1500]))
+        if kind == "config-refused":
+            if i != "new:Err:Msg:Configuration_value_out_of_range":
+                run.violation(kind="fault_sequence", case=c[:3000], expected="Feig::new returns an error for a configuration value its field cannot carry",
+                              observed=i[:1500], how_found="oracle", detail="configuration extreme")
+            else:
+                run.nontrivial.add(hash(c))
+            continue
         p = cc.parse_output(i)
+        if kind == "config-tid" and p is not None:
+            got = [r[0] for r in p[0][1:]]
+            if got != sc.exp_results:
+                run.violation(kind="fault_sequence", case=c[:3000], expected="results " + ";".join(sc.exp_results), observed=i[:1500], how_found="oracle",
+                              detail="a terminal id of more than eight digits is an error of configure(), not a panic")
         if p is None or "Hang" in i or "Panic" in i:
             run.violation(kind="fault_sequence", case=c[:3000], expected="every operation returns (a result or an error) within its retry budget",
                           observed=i[:1500], how_found="oracle", detail="%s at exchange/position %s/%s" % (kind, a, b))
